@@ -245,6 +245,28 @@ def run(ctx):
             idx = gen.index_of(G)
             tau, gamma = RATES[ctx.rng.randrange(len(RATES))]
             p = ctx.rng.choice([0.25, 0.5, 0.0, 1.0])
+            # one case in three: THE SAME graph object has already been through the library with a different wiring
+            # (an earlier call, then edges moved in place keeping the node and edge counts): the result must depend on
+            # what the graph is now, not on what the object looked like before
+            rewired = False
+            if k % 3 == 2 and G.number_of_edges() >= 1 and not G.is_directed():
+                try:
+                    kw0, _ = odes.ic_kwargs(name, style, G, ctx.rng)
+                    odes.call(name, G, kw0, 0.5, 1.0, 0 if e["discrete"] else 0.0, 2 if e["discrete"] else 1.0, 3, False, p=0.5)
+                except Exception:
+                    pass
+                nodes_ = list(G)
+                for _ in range(ctx.rng.randint(1, max(1, G.number_of_edges() // 2))):
+                    non = [(a, b) for i_, a in enumerate(nodes_) for b in nodes_[i_ + 1:] if not G.has_edge(a, b)]
+                    if not non:
+                        break
+                    a, b = ctx.rng.choice(list(G.edges()))
+                    G.remove_edge(a, b)
+                    G.add_edge(*ctx.rng.choice(non))
+                    rewired = True
+                if rewired:
+                    ctx.count("rewired-in-place-after-a-call")
+                    gkind += ":rewired-in-place"
             kw, desc = odes.ic_kwargs(name, style, G, ctx.rng)
             full = bool(e["full"]) and ctx.rng.random() < 0.6
             tmin = ctx.rng.choice([0, 0, 1, 2])
